@@ -21,7 +21,7 @@ operation that is not applicable becomes a no-op.
 
 class Result(object):
     __slots__ = ("violations", "events", "nontrivial", "faults", "probes", "sim_us", "states",
-                 "steps", "inconclusive", "digest")
+                 "steps", "inconclusive", "digest", "observed")
 
     def __init__(self):
         self.violations = []   # list of dicts {"oracle","where","detail"}
@@ -34,6 +34,7 @@ class Result(object):
         self.steps = 0
         self.inconclusive = False
         self.digest = None
+        self.observed = None   # optional dict shown with evidence samples (e.g. the recorded schedule)
 
     def violate(self, oracle, where, detail):
         self.violations.append({"oracle": oracle, "where": where, "detail": str(detail)[:600]})
